@@ -68,4 +68,47 @@ class PassThrough(BCheck):
         return compare_phase_output(inp["main_vcf"], res["out"], inp["tag"], inp["samples"], inp["chromosomes"], only_snvs=inp["only_snvs"])
 
 
-B_CHECKS = [PassThrough()]
+class DistrustReadable(BCheck):
+    name = "C04.distrust-output-well-formed"
+    contract = ("with --distrust-genotypes (and --include-homozygous) the output is still a well-formed VCF that htslib reads back record by record, holds the input's "
+                "records in order, and differs from the input only in the sample columns and the FORMAT key list (genotypes may change there: that is what the option is for)")
+    rule = ("seeded scenarios whose phase inputs claim het at homozygous sites (so that genotypes change and homozygous positions are part of the phasing), tag PS|HP, "
+            "--include-homozygous on/off; non-trivial = the run phases at least one call")
+    budget_s = {"quick": 60, "thorough": 600}
+    chunk = 10
+
+    def inputs(self, tier, rng):
+        for i in range(600 if tier == "quick" else 10000):
+            r = random.Random(rng.getrandbits(64))
+            g = PH.generate(r, k_files=(2, 4), error_rate=0.05, hom_as_het=0.5, main_kwargs=dict(n_samples=(1, 2), n_records=(4, 8), duplicates=0, extra_format=False,
+                            kinds=("snv", "snv", "ins", "del"), gt_kinds=("het", "het", "het", "het_rev", "homref", "homalt")))
+            yield dict(main_vcf=g["main_vcf"], phase_vcfs=g["phase_vcfs"], tag="HP" if i % 2 else "PS", include_homozygous=(i % 3 != 0))
+
+    def check(self, inp):
+        import os
+        import tempfile
+        import pysam
+        from runtime.phase_driver import run_phase
+        res = run_phase(inp["main_vcf"], inp["phase_vcfs"], tag=inp["tag"], distrust_genotypes=True, include_homozygous=inp["include_homozygous"])
+        if res["error"]:
+            return dict(expected="run_whatshap succeeds", observed=res["error"], traceback=res.get("traceback"))
+        fd, path = tempfile.mkstemp(suffix=".vcf")
+        try:
+            with os.fdopen(fd, "w") as f:
+                f.write(res["out"])
+            try:
+                with pysam.VariantFile(path) as vf:
+                    n_read = sum(1 for _ in vf)
+            except Exception as e:
+                return dict(expected="htslib reads the output VCF", observed="%s: %s" % (type(e).__name__, e), clause="well-formed", tag=inp["tag"])
+        finally:
+            os.unlink(path)
+        fixed = lambda text: [l.split("\t")[:8] for l in text.split("\n") if l and not l.startswith("#")]
+        a, b = fixed(inp["main_vcf"]), fixed(res["out"])
+        if n_read != len(a) or a != b:
+            return dict(expected="the %d input records in order with identical CHROM..INFO columns" % len(a), observed="%d records read; first difference %r" % (
+                n_read, next(((x, y) for x, y in zip(a, b) if x != y), None)), clause="records")
+        return None
+
+
+B_CHECKS = [PassThrough(), DistrustReadable()]
